@@ -231,7 +231,7 @@ func post_decodeConnect_strings(data []byte, res0 Message, res1 error) bool {
 // ---------------------------------------------------------------------------------------------------------
 // 3.2 CONNACK, 3.3 PUBLISH, 3.4-3.7 PUBACK/PUBREC/PUBREL/PUBCOMP, 3.11 UNSUBACK
 
-//@ verify decodeConnack pre=pre_decodeConnack post=post_decodeConnack props=C16
+// @ verify decodeConnack pre=pre_decodeConnack post=post_decodeConnack props=C16
 func pre_decodeConnack(data []byte) bool { return len(data) == 2 }
 func post_decodeConnack(data []byte, res0 Message) bool {
 	c, ok := res0.(*Connack)
@@ -248,7 +248,7 @@ func specPublishWF(d []byte, qos uint8) bool {
 
 func pre_decodePublish(data []byte, hdr Header) bool { return specPublishWF(data, hdr.QOS) }
 
-//@ verify decodePublish pre=pre_decodePublish post=post_decodePublish props=C16
+// @ verify decodePublish pre=pre_decodePublish post=post_decodePublish props=C16
 func post_decodePublish(data []byte, hdr Header, res0 Message, res1 error) bool {
 	p, ok := res0.(*Publish)
 	at := specStrEnd(data, 0)
@@ -263,31 +263,31 @@ func post_decodePublish(data []byte, hdr Header, res0 Message, res1 error) bool 
 
 func pre_decodeID(data []byte) bool { return len(data) >= 2 && len(data) <= specMaxBody }
 
-//@ verify decodePuback pre=pre_decodeID post=post_decodePuback props=C16
+// @ verify decodePuback pre=pre_decodeID post=post_decodePuback props=C16
 func post_decodePuback(data []byte, res0 Message) bool {
 	p, ok := res0.(*Puback)
 	return ok && p.MessageID == specU16(data, 0)
 }
 
-//@ verify decodePubrec pre=pre_decodeID post=post_decodePubrec props=C16
+// @ verify decodePubrec pre=pre_decodeID post=post_decodePubrec props=C16
 func post_decodePubrec(data []byte, res0 Message) bool {
 	p, ok := res0.(*Pubrec)
 	return ok && p.MessageID == specU16(data, 0)
 }
 
-//@ verify decodePubrel pre=pre_decodeID post=post_decodePubrel props=C16
+// @ verify decodePubrel pre=pre_decodeID post=post_decodePubrel props=C16
 func post_decodePubrel(data []byte, hdr Header, res0 Message) bool {
 	p, ok := res0.(*Pubrel)
 	return ok && p.MessageID == specU16(data, 0) && p.Header == hdr
 }
 
-//@ verify decodePubcomp pre=pre_decodeID post=post_decodePubcomp props=C16
+// @ verify decodePubcomp pre=pre_decodeID post=post_decodePubcomp props=C16
 func post_decodePubcomp(data []byte, res0 Message) bool {
 	p, ok := res0.(*Pubcomp)
 	return ok && p.MessageID == specU16(data, 0)
 }
 
-//@ verify decodeUnsuback pre=pre_decodeID post=post_decodeUnsuback props=C16
+// @ verify decodeUnsuback pre=pre_decodeID post=post_decodeUnsuback props=C16
 func post_decodeUnsuback(data []byte, res0 Message) bool {
 	p, ok := res0.(*Unsuback)
 	return ok && p.MessageID == specU16(data, 0)
@@ -299,8 +299,10 @@ func post_decodeUnsuback(data []byte, res0 Message) bool {
 
 // The encode buffers come from a sync.Pool whose New makes 64 KiB buffers; that a recycled buffer is private to
 // the caller and still has that size is assumed here (sync.Pool is outside the verified code).
-//@ assume (*bufferPool).Get post=post_bufferPool_Get fresh
-func post_bufferPool_Get(res0 *byteBuffer) bool { return res0 != nil && len(res0.buf) == MaxMessageSize }
+// @ assume (*bufferPool).Get post=post_bufferPool_Get fresh
+func post_bufferPool_Get(res0 *byteBuffer) bool {
+	return res0 != nil && len(res0.buf) == MaxMessageSize
+}
 
 //@ assume (*bufferPool).Put
 
@@ -326,10 +328,11 @@ func specPublishLen(p *Publish) int {
 	return n
 }
 
-//@ verify (*Publish).EncodeTo pre=pre_Publish_EncodeTo post=post_Publish_EncodeTo_big,post_Publish_EncodeTo_head,post_Publish_EncodeTo_topic,post_Publish_EncodeTo_msgid,post_Publish_EncodeTo_payload props=C16,C09
+// @ verify (*Publish).EncodeTo pre=pre_Publish_EncodeTo post=post_Publish_EncodeTo_big,post_Publish_EncodeTo_head,post_Publish_EncodeTo_topic,post_Publish_EncodeTo_msgid,post_Publish_EncodeTo_payload props=C16,C09
 func pre_Publish_EncodeTo(p *Publish, w io.Writer) bool {
 	return p != nil && w != nil && p.QOS < 4 && len(p.Topic) <= 65535 && len(p.Payload) <= specMaxBody
 }
+
 // specMaxEncodedBody: the largest body an encoder can emit: the 64 KiB frame minus the fixed-header reserve.
 const specMaxEncodedBody = MaxMessageSize - maxHeaderSize
 
@@ -362,37 +365,39 @@ func specIDPacket(typ uint8, h *Header, id uint16, res0 int, res1 error) bool {
 	return specOneWrite(res0, res1) && specPacketHead(b, typ, h, 2) && specU16(b, 2) == id
 }
 
-//@ verify (*Puback).EncodeTo pre=pre_Puback_EncodeTo post=post_Puback_EncodeTo props=C16
+// @ verify (*Puback).EncodeTo pre=pre_Puback_EncodeTo post=post_Puback_EncodeTo props=C16
 func pre_Puback_EncodeTo(p *Puback, w io.Writer) bool { return p != nil && w != nil }
 func post_Puback_EncodeTo(p *Puback, w io.Writer, res0 int, res1 error) bool {
 	return specIDPacket(TypeOfPuback, nil, p.MessageID, res0, res1)
 }
 
-//@ verify (*Pubrec).EncodeTo pre=pre_Pubrec_EncodeTo post=post_Pubrec_EncodeTo props=C16
+// @ verify (*Pubrec).EncodeTo pre=pre_Pubrec_EncodeTo post=post_Pubrec_EncodeTo props=C16
 func pre_Pubrec_EncodeTo(p *Pubrec, w io.Writer) bool { return p != nil && w != nil }
 func post_Pubrec_EncodeTo(p *Pubrec, w io.Writer, res0 int, res1 error) bool {
 	return specIDPacket(TypeOfPubrec, nil, p.MessageID, res0, res1)
 }
 
-//@ verify (*Pubrel).EncodeTo pre=pre_Pubrel_EncodeTo post=post_Pubrel_EncodeTo props=C16
-func pre_Pubrel_EncodeTo(p *Pubrel, w io.Writer) bool { return p != nil && w != nil && p.Header.QOS < 4 }
+// @ verify (*Pubrel).EncodeTo pre=pre_Pubrel_EncodeTo post=post_Pubrel_EncodeTo props=C16
+func pre_Pubrel_EncodeTo(p *Pubrel, w io.Writer) bool {
+	return p != nil && w != nil && p.Header.QOS < 4
+}
 func post_Pubrel_EncodeTo(p *Pubrel, w io.Writer, res0 int, res1 error) bool {
 	return specIDPacket(TypeOfPubrel, &p.Header, p.MessageID, res0, res1)
 }
 
-//@ verify (*Pubcomp).EncodeTo pre=pre_Pubcomp_EncodeTo post=post_Pubcomp_EncodeTo props=C16
+// @ verify (*Pubcomp).EncodeTo pre=pre_Pubcomp_EncodeTo post=post_Pubcomp_EncodeTo props=C16
 func pre_Pubcomp_EncodeTo(p *Pubcomp, w io.Writer) bool { return p != nil && w != nil }
 func post_Pubcomp_EncodeTo(p *Pubcomp, w io.Writer, res0 int, res1 error) bool {
 	return specIDPacket(TypeOfPubcomp, nil, p.MessageID, res0, res1)
 }
 
-//@ verify (*Unsuback).EncodeTo pre=pre_Unsuback_EncodeTo post=post_Unsuback_EncodeTo props=C16
+// @ verify (*Unsuback).EncodeTo pre=pre_Unsuback_EncodeTo post=post_Unsuback_EncodeTo props=C16
 func pre_Unsuback_EncodeTo(u *Unsuback, w io.Writer) bool { return u != nil && w != nil }
 func post_Unsuback_EncodeTo(u *Unsuback, w io.Writer, res0 int, res1 error) bool {
 	return specIDPacket(TypeOfUnsuback, nil, u.MessageID, res0, res1)
 }
 
-//@ verify (*Connack).EncodeTo pre=pre_Connack_EncodeTo post=post_Connack_EncodeTo props=C16
+// @ verify (*Connack).EncodeTo pre=pre_Connack_EncodeTo post=post_Connack_EncodeTo props=C16
 func pre_Connack_EncodeTo(c *Connack, w io.Writer) bool { return c != nil && w != nil }
 func post_Connack_EncodeTo(c *Connack, w io.Writer, res0 int, res1 error) bool { // 3.2: flags byte 0, return code
 	b := vs.TraceBytes(0, 1)
@@ -405,18 +410,18 @@ func specEmptyPacket(typ uint8, res0 int, res1 error) bool {
 	return specOneWrite(res0, res1) && len(b) == 2 && b[0] == typ<<4 && b[1] == 0
 }
 
-//@ verify (*Pingreq).EncodeTo pre=pre_Pingreq_EncodeTo post=post_Pingreq_EncodeTo props=C16
+// @ verify (*Pingreq).EncodeTo pre=pre_Pingreq_EncodeTo post=post_Pingreq_EncodeTo props=C16
 func pre_Pingreq_EncodeTo(w io.Writer) bool { return w != nil }
 func post_Pingreq_EncodeTo(w io.Writer, res0 int, res1 error) bool {
 	return specEmptyPacket(TypeOfPingreq, res0, res1)
 }
 
-//@ verify (*Pingresp).EncodeTo pre=pre_Pingreq_EncodeTo post=post_Pingresp_EncodeTo props=C16
+// @ verify (*Pingresp).EncodeTo pre=pre_Pingreq_EncodeTo post=post_Pingresp_EncodeTo props=C16
 func post_Pingresp_EncodeTo(w io.Writer, res0 int, res1 error) bool {
 	return specEmptyPacket(TypeOfPingresp, res0, res1)
 }
 
-//@ verify (*Disconnect).EncodeTo pre=pre_Pingreq_EncodeTo post=post_Disconnect_EncodeTo props=C16
+// @ verify (*Disconnect).EncodeTo pre=pre_Pingreq_EncodeTo post=post_Disconnect_EncodeTo props=C16
 func post_Disconnect_EncodeTo(w io.Writer, res0 int, res1 error) bool {
 	return specEmptyPacket(TypeOfDisconnect, res0, res1)
 }
@@ -424,8 +429,8 @@ func post_Disconnect_EncodeTo(w io.Writer, res0 int, res1 error) bool {
 // ---------------------------------------------------------------------------------------------------------
 // 3.9 SUBACK: packet identifier, then one return code per subscription, to the end of the body.
 
-//@ verify decodeSuback pre=pre_decodeID post=post_decodeSuback props=C16
-//@ loop decodeSuback 0 inv inv_decodeSuback modifies=qoses
+// @ verify decodeSuback pre=pre_decodeID post=post_decodeSuback props=C16
+// @ loop decodeSuback 0 inv inv_decodeSuback modifies=qoses
 func inv_decodeSuback(data []byte, bookmark uint32, maxlen uint32, qoses []uint8) bool {
 	return int(maxlen) == len(data) && 2 <= bookmark && bookmark <= maxlen && len(qoses) == int(bookmark)-2 &&
 		vs.Forall(0, len(qoses), func(j int) bool { return qoses[j] == data[2+j] })
@@ -453,8 +458,8 @@ func post_decodeSuback(data []byte, res0 Message) bool {
 //@ assume decodeUnsubscribe iface
 //@ assume decodeUnsuback iface
 
-//@ verify DecodePacket pre=pre_DecodePacket post=post_DecodePacket_refuse props=C09 makebound=1048576
-//@ loop decodeHeader 0 inv inv_decodeHeader modifies=*
+// @ verify DecodePacket pre=pre_DecodePacket post=post_DecodePacket_refuse props=C09 makebound=1048576
+// @ loop decodeHeader 0 inv inv_decodeHeader modifies=*
 func pre_DecodePacket(rdr Reader, maxMessageSize int64) bool {
 	return rdr != nil && 0 <= maxMessageSize && maxMessageSize <= 1048576
 }
@@ -463,4 +468,95 @@ func post_DecodePacket_refuse(rdr Reader, maxMessageSize int64, res0 Message, re
 	// whenever a body was read, it was read into a buffer no larger than the limit (io.ReadFull's second argument)
 	r := vs.TraceFind("io.ReadFull")
 	return r < 0 || int64(len(vs.TraceArg[[]byte](r, 1))) <= maxMessageSize
+}
+
+// ---------------------------------------------------------------------------------------------------------
+// 3.8 SUBSCRIBE / 3.10 UNSUBSCRIBE: packet identifier, then a list of (topic filter string [, requested QoS])
+// entries to the end of the body. The decoders return topic filters as sub-slices of the body, so the layout is
+// stated entry by entry through the position vs.OffsetIn gives each of them: the first string starts right after
+// the identifier, every next one right after its predecessor (and its QoS byte), each is announced by its 2-byte
+// length, and the list ends exactly at the end of the body. That chain determines the field values uniquely, for
+// any number of entries (loop invariant, unbounded). Contract for NORMAL returns: a body that is cut short panics
+// in the connection's goroutine, which recovers (C08/C09) - safety=off says so in the evidence.
+
+// The chain, clause by clause (each is its own invariant, so each proof obligation has one quantifier to establish).
+// p(k) = position of entry k's string in the body; extra = 1 for SUBSCRIBE (the QoS byte), 0 for UNSUBSCRIBE.
+func specChainEnds(ts []TopicQOSTuple, data []byte, extra int, end int) bool { // first entry, and where the list ends
+	n := len(ts)
+	if n == 0 {
+		return end == 2
+	}
+	return vs.OffsetIn(ts[0].Topic, data) == 4 && end == vs.OffsetIn(ts[n-1].Topic, data)+len(ts[n-1].Topic)+extra
+}
+func specChainIn(ts []TopicQOSTuple, data []byte, extra int) bool { // every entry lies inside the body
+	return vs.Forall(0, len(ts), func(k int) bool {
+		p := vs.OffsetIn(ts[k].Topic, data)
+		return 4 <= p && p+len(ts[k].Topic)+extra <= len(data)
+	})
+}
+func specChainLen(ts []TopicQOSTuple, data []byte) bool { // and is announced by the two bytes before it
+	return vs.Forall(0, len(ts), func(k int) bool {
+		return int(specU16(data, vs.OffsetIn(ts[k].Topic, data)-2)) == len(ts[k].Topic)
+	})
+}
+func specChainQos(ts []TopicQOSTuple, data []byte) bool { // SUBSCRIBE: the requested QoS is the byte after the string
+	return vs.Forall(0, len(ts), func(k int) bool {
+		return ts[k].Qos == data[vs.OffsetIn(ts[k].Topic, data)+len(ts[k].Topic)]
+	})
+}
+func specChainLink(ts []TopicQOSTuple, data []byte, extra int) bool { // the next entry starts right after this one
+	return vs.Forall(0, len(ts)-1, func(k int) bool {
+		return vs.OffsetIn(ts[k+1].Topic, data) == vs.OffsetIn(ts[k].Topic, data)+len(ts[k].Topic)+extra+2
+	})
+}
+func specTupleChain(ts []TopicQOSTuple, data []byte, extra int, end int) bool {
+	return specChainEnds(ts, data, extra, end) && specChainIn(ts, data, extra) && specChainLen(ts, data) &&
+		(extra == 0 || specChainQos(ts, data)) && specChainLink(ts, data, extra)
+}
+
+// @ verify decodeSubscribe pre=pre_decodeID post=post_decodeSubscribe props=C16 safety=off qinst
+// @ loop decodeSubscribe 0 inv inv_decodeSubscribe,inv_decodeSubscribe_in,inv_decodeSubscribe_len,inv_decodeSubscribe_qos,inv_decodeSubscribe_link modifies=topics
+func inv_decodeSubscribe(data []byte, bookmark uint32, maxlen uint32, topics []TopicQOSTuple) bool {
+	return int(maxlen) == len(data) && 2 <= bookmark && int(bookmark) <= len(data) && specChainEnds(topics, data, 1, int(bookmark))
+}
+func inv_decodeSubscribe_in(data []byte, topics []TopicQOSTuple) bool {
+	return specChainIn(topics, data, 1)
+}
+func inv_decodeSubscribe_len(data []byte, topics []TopicQOSTuple) bool {
+	return specChainLen(topics, data)
+}
+func inv_decodeSubscribe_qos(data []byte, topics []TopicQOSTuple) bool {
+	return specChainQos(topics, data)
+}
+func inv_decodeSubscribe_link(data []byte, topics []TopicQOSTuple) bool {
+	return specChainLink(topics, data, 1)
+}
+func post_decodeSubscribe(data []byte, hdr Header, res0 Message, res1 error) bool {
+	if res1 != nil {
+		return res0 == nil
+	}
+	s, ok := res0.(*Subscribe)
+	return ok && s.Header == hdr && s.MessageID == specU16(data, 0) && specTupleChain(s.Subscriptions, data, 1, len(data))
+}
+
+// @ verify decodeUnsubscribe pre=pre_decodeID post=post_decodeUnsubscribe props=C16 safety=off qinst
+// @ loop decodeUnsubscribe 0 inv inv_decodeUnsubscribe,inv_decodeUnsubscribe_in,inv_decodeUnsubscribe_len,inv_decodeUnsubscribe_link modifies=topics
+func inv_decodeUnsubscribe(data []byte, bookmark uint32, maxlen uint32, topics []TopicQOSTuple) bool {
+	return int(maxlen) == len(data) && 2 <= bookmark && int(bookmark) <= len(data) && specChainEnds(topics, data, 0, int(bookmark))
+}
+func inv_decodeUnsubscribe_in(data []byte, topics []TopicQOSTuple) bool {
+	return specChainIn(topics, data, 0)
+}
+func inv_decodeUnsubscribe_len(data []byte, topics []TopicQOSTuple) bool {
+	return specChainLen(topics, data)
+}
+func inv_decodeUnsubscribe_link(data []byte, topics []TopicQOSTuple) bool {
+	return specChainLink(topics, data, 0)
+}
+func post_decodeUnsubscribe(data []byte, hdr Header, res0 Message, res1 error) bool {
+	if res1 != nil {
+		return res0 == nil
+	}
+	u, ok := res0.(*Unsubscribe)
+	return ok && u.Header == hdr && u.MessageID == specU16(data, 0) && specTupleChain(u.Topics, data, 0, len(data))
 }
